@@ -148,6 +148,7 @@ func runC04(c *Ctx) {
 	ruleX2(c, "M2")
 	ruleU1U2(c, "M3", "M3")
 	ruleM5(c, "M5")
+	ruleM12(c, "M12")
 	ruleM6(c, "M6")
 	rulePF(c, "M7", 20)
 	r.Rule("M8", "the `n` flag restricts the attribute update to null targets, it does not switch it off", 1)
